@@ -90,19 +90,20 @@ type lexer struct {
 	err    error
 	cancel chan struct{}
 
-	aliases   []*alias
-	stack     []int
-	arithExpr bool
-	paren     int
-	heredoc   heredoc
-	word      ast.Word
-	b         strings.Builder
-	line      int
-	col       int
-	prevCol   int
-	pos       ast.Pos
-	last      atomic.Value
-	seen      bool
+	aliases    []*alias
+	stack      []int
+	arithExpr  bool
+	paren      int
+	arithParen int
+	heredoc    heredoc
+	word       ast.Word
+	b          strings.Builder
+	line       int
+	col        int
+	prevCol    int
+	pos        ast.Pos
+	last       atomic.Value
+	seen       bool
 }
 
 func newLexer(env *interp.ExecEnv, name string, r io.RuneScanner) *lexer {
@@ -1140,10 +1141,11 @@ func (l *lexer) scanOp(r rune) (op int) {
 	case '(':
 		op = '('
 		l.paren++
-		if l.paren == 1 {
+		if !l.arithExpr {
 			if r, err := l.read(); err == nil {
 				if r == '(' {
 					op = LAE
+					l.arithParen = l.paren
 					l.paren++
 					l.arithExpr = true
 				} else {
@@ -1154,7 +1156,7 @@ func (l *lexer) scanOp(r rune) (op int) {
 	case ')':
 		op = ')'
 		l.paren--
-		if l.arithExpr && l.paren == 1 {
+		if l.arithExpr && l.paren == l.arithParen {
 			if r, err := l.read(); err == nil {
 				if r == ')' {
 					op = RAE
